@@ -305,7 +305,7 @@ def run_scenario(binary, sc, work, name, timeout_s=None):
             res = json.load(f)
     except Exception:
         pass
-    return {'name': name, 'dir': d, 'code': code, 'stdout': out[-4000:], 'stderr': err[-8000:], 'result': res,
+    return {'name': name, 'dir': d, 'code': code, 'stdout': out[-4000:], 'stderr': (err if len(err) <= 14000 else err[:9000] + '\n...\n' + err[-5000:]), 'result': res,
             'trace': sc['trace_out'], 'wall': time.time() - t0, 'scenario': sc}
 
 
